@@ -192,6 +192,7 @@ class Continuous(AgentSchedulingComponent):
         loop_gpu_idx  = 0
         free_lfs      = node['lfs']
         free_mem      = node['mem']
+        gpu_shares    = dict()  # gpu shares handed out to earlier slots
         while len(slots) < n_slots:
 
             node_idx  = node['index']
@@ -263,9 +264,12 @@ class Continuous(AgentSchedulingComponent):
                 for gpu_idx,gpu_occ in enumerate(node['gpus'][loop_gpu_idx:],
                                                               loop_gpu_idx):
 
-                    if gpus_per_slot <= rpc.BUSY - gpu_occ:
+                    if gpus_per_slot <= rpc.BUSY - gpu_occ \
+                                                 - gpu_shares.get(gpu_idx, 0.0):
                         slot['gpus'].append(RO(index=gpu_idx,
                                                occupation=gpus_per_slot))
+                        gpu_shares[gpu_idx] = gpu_shares.get(gpu_idx, 0.0) \
+                                            + gpus_per_slot
                         break
                     else:
                         loop_gpu_idx = gpu_idx + 1
